@@ -22,10 +22,16 @@ WRITER_ATOMS = {
     'write_address': 'ADDR', 'write_offset': 'OFF', 'write_offset_at': 'OFFAT', 'write_eh_pointer': 'EH',
     'write_eh_pointer_data': 'EHD', 'write': 'BYTES', 'write_at': 'BYTESAT', 'write_u8_at': 'B1AT', 'write_u16_at': 'B2AT',
     'write_u32_at': 'B4AT', 'write_u64_at': 'B8AT', 'write_udata_at': 'BNAT', 'write_initial_length': 'ILEN',
-    'write_initial_length_at': 'ILENAT', 'write_uint': 'BN',
+    'write_initial_length_at': 'ILENAT', 'write_uint': 'BN', 'write_reference': 'OFF',
 }
 SIZE_ATOMS = {'uleb128_size': 'ULEB', 'sleb128_size': 'SLEB', 'word_size': 'WORD', 'initial_length_size': 'ILEN',
               'len': 'BYTES'}
+# named sub-codecs: calls that emit / consume a whole nested structure
+SUBCODECS = {
+    'write::op::Expression::write': 'EXPR',
+    'write::loc::LocationListTable::write_expression' if False else 'write_expression': 'LEXPR',
+    'write::line::LineString::write': 'LSTRING',
+}
 CONST_BYTES = {'B1': 1, 'B2': 2, 'B4': 4, 'B8': 8, 'B16': 16}
 
 
@@ -94,6 +100,10 @@ class Eff:
             return self._with_arg(fn, t, WRITER_ATOMS[name])
         if name in self.extra:
             return self.extra[name]
+        path = f.get('path', '')
+        for suffix, atom in SUBCODECS.items():
+            if path.endswith(suffix):
+                return atom
         return None
 
     def _with_arg(self, fn, t, atom):
@@ -103,6 +113,10 @@ class Eff:
             a = t['a'][2]
             if a[0] == 'k' and isinstance(a[2].get('v'), int):
                 return 'B%d' % a[2]['v']
+        if atom == 'BYTES' and name == 'write' and len(t['a']) >= 2:
+            n = _const_slice_len(fn, t['a'][1])
+            if n is not None:
+                return 'B%d' % n
         if atom == 'OFFN' and len(t['a']) >= 2:
             a = t['a'][1]
             if a[0] == 'k' and isinstance(a[2].get('v'), int):
@@ -211,6 +225,29 @@ class Eff:
 
     def fn_paths(self, fn):
         return self.paths(fn, 0)
+
+
+def _const_slice_len(fn, op, depth=5):
+    """length of a `&[a, b, ..]` literal passed as a slice (through the unsizing cast)"""
+    if op[0] not in ('c', 'm') or len(op[1]) != 1 or depth <= 0:
+        return None
+    sd = fn.single_def(op[1][0])
+    if sd is None or sd[1] == 'term':
+        return None
+    rv = sd[2]
+    if rv[0] in ('cast', ):
+        import re as _re
+        m = _re.match(r"^&(?:'\w+ )?\[u8; (\d+)\]$", fn.facts.strs[rv[3]])
+        if m:
+            return int(m.group(1))
+        return _const_slice_len(fn, rv[2], depth - 1)
+    if rv[0] == 'use':
+        return _const_slice_len(fn, rv[1], depth - 1)
+    if rv[0] == 'ref' and len(rv[1]) == 1:
+        sd2 = fn.single_def(rv[1][0])
+        if sd2 and sd2[1] != 'term' and sd2[2][0] == 'agg' and sd2[2][1][0] == 'array':
+            return len(sd2[2][2])
+    return None
 
 
 def seqs_to_json(paths):
